@@ -25,6 +25,15 @@ for d in sorted(glob.glob(f"{V}/seeded/*/")):
     c = m.get("confirmed_by_coordinator", {})
     rows.append(f"| {os.path.basename(d[:-1])} | {m.get('property','')} | {esc(m.get('summary',''))[:300]} | {esc(m.get('needs',''))[:260]} | {esc(c.get('check',''))[:420]} |")
 rows.append("")
+rows += ["### 11.4 Per-property status (from manifest.d and the last evidence files; details in design.d/Cxx.md)", "",
+         "| id | theorems (discharged/obligations) | cases last run (distinct non-trivial) | what is claimed |", "|---|---|---|---|"]
+for f in sorted(glob.glob(f"{V}/manifest.d/C*.json")):
+    c = json.load(open(f)); pid = c["property_id"]
+    ev = {}
+    try: ev = json.load(open(f"{V}/evidence/{pid}.json"))["coverage"]
+    except Exception: pass
+    rows.append(f"| {pid} | {ev.get('discharged','?')}/{ev.get('obligations','?')} | {ev.get('evaluations','?')} ({ev.get('distinct_nontrivial','?')}) | {esc(c['level_claimed']['text'])[:700]} |")
+rows.append("")
 text = open(f"{V}/DESIGN.md").read()
 block = "<!-- AUTOGEN-TABLES-BEGIN -->\n" + "\n".join(rows) + "\n<!-- AUTOGEN-TABLES-END -->\n"
 if "<!-- AUTOGEN-TABLES-BEGIN -->" in text:
